@@ -21,6 +21,7 @@ from jsonpath.function_extensions.filter_function import ExpressionType
 
 from .exceptions import JSONPathTypeError
 from .function_extensions import FilterFunction
+from .match import JSONPathMatch
 from .match import NodeList
 from .selectors import Filter as FilterSelector
 from .selectors import ListSelector
@@ -534,14 +535,27 @@ class SelfPath(Path):
     def __str__(self) -> str:
         return "@" + str(self.path)[1:]
 
+    def _current_node(self, context: FilterContext) -> NodeList:
+        # A bare `@` is a query: it selects the current node, whatever its value.
+        return NodeList(
+            [
+                JSONPathMatch(
+                    filter_context=context.extra_context,
+                    obj=context.current,
+                    parent=None,
+                    path=context.env.root_token,
+                    parts=(),
+                    root=context.root,
+                )
+            ]
+        )
+
     def evaluate(self, context: FilterContext) -> object:
-        if isinstance(context.current, str):  # TODO: refactor
+        if isinstance(context.current, str) or not isinstance(
+            context.current, (Sequence, Mapping)
+        ):
             if self.path.empty():
-                return context.current
-            return NodeList()
-        if not isinstance(context.current, (Sequence, Mapping)):
-            if self.path.empty():
-                return context.current
+                return self._current_node(context)
             return NodeList()
 
         return NodeList(
@@ -549,13 +563,11 @@ class SelfPath(Path):
         )
 
     async def evaluate_async(self, context: FilterContext) -> object:
-        if isinstance(context.current, str):  # TODO: refactor
+        if isinstance(context.current, str) or not isinstance(
+            context.current, (Sequence, Mapping)
+        ):
             if self.path.empty():
-                return context.current
-            return NodeList()
-        if not isinstance(context.current, (Sequence, Mapping)):
-            if self.path.empty():
-                return context.current
+                return self._current_node(context)
             return NodeList()
 
         return NodeList(
